@@ -2548,6 +2548,12 @@ def _tensordot_via_fused(a, b, left_axes, axes_a, axes_b, right_axes):
             blocks={},
         )
 
+    # only unfuse result legs that are actually fused here, any leg that
+    # already carried subindex information must come back as it went in
+    unfuse_left = len(left_axes) > 1
+    unfuse_right = len(right_axes) > 1
+    ax_right = min(len(left_axes), 1)
+
     # fuse into matrices or maybe vectors
     af = AbelianArray.fuse(a, left_axes, axes_a, expand_empty=False)
     bf = AbelianArray.fuse(b, axes_b, right_axes, expand_empty=False)
@@ -2571,9 +2577,10 @@ def _tensordot_via_fused(a, b, left_axes, axes_a, axes_b, right_axes):
     cf = _tensordot_blockwise(af, bf, left_axes, axes_a, axes_b, right_axes)
 
     # unfuse result into (*left_axes, *right_axes)
-    for ax in reversed(range(cf.ndim)):
-        if cf.indices[ax].subinfo is not None:
-            AbelianArray.unfuse(cf, ax, inplace=True)
+    if unfuse_right:
+        AbelianArray.unfuse(cf, ax_right, inplace=True)
+    if unfuse_left:
+        AbelianArray.unfuse(cf, 0, inplace=True)
 
     return cf
 
